@@ -39,10 +39,69 @@ Definition check_icase (c : icase) : verdict :=
   vcombine (iviol_from 0 minit (ic_evs c) (ic_outs c))
            (imism_from 0 init (ic_evs c) (ic_outs c)).
 
+(* ---- directory creators ------------------------------------------------ *)
+
+Definition dout_eqb (a b : dout) : bool :=
+  match a, b with
+  | DSkip, DSkip => true
+  | DGot x, DGot y => String.eqb x y
+  | DErr x, DErr y => N.eqb x y
+  | DClosed x, DClosed y => N.eqb x y
+  | DWrote x, DWrote y => Bool.eqb x y
+  | _, _ => false
+  end.
+
+Fixpoint strs_eqb (a b : list string) : bool :=
+  match a, b with
+  | [], [] => true
+  | x :: a', y :: b' => String.eqb x y && strs_eqb a' b'
+  | _, _ => false
+  end.
+
+Fixpoint listing_eqb (a b : listing) : bool :=
+  match a, b with
+  | [], [] => true
+  | (x, fx) :: a', (y, fy) :: b' => String.eqb x y && strs_eqb fx fy && listing_eqb a' b'
+  | _, _ => false
+  end.
+
+(* One creators case: the operations run on the real
+   Shared(Clean(Root(in-memory directory))) stack and, per operation, the
+   result, the number of Cleaner invocations and the root listing after. *)
+Record dcase := mkDCase {
+  dc_ops : list dop;
+  dc_obs : list dobs }.
+
+Fixpoint dviol_from (i : nat) (m : dmstate) (ops : list dop) (obs : list dobs) : verdict :=
+  match ops, obs with
+  | o :: ops', ob :: obs' =>
+    let '(m', k) := dmon_step m o ob in
+    if String.eqb k "" then dviol_from (S i) m' ops' obs' else VViolation i k
+  | [], [] => VOk
+  | _, _ => VMismatch i "malformed case"
+  end.
+
+Fixpoint dmism_from (i : nat) (s : dstate) (ops : list dop) (obs : list dobs) : verdict :=
+  match ops, obs with
+  | o :: ops', ob :: obs' =>
+    let '(s', out, c) := dstep s o in
+    if negb (dout_eqb (ob_out ob) out) then VMismatch i "result"
+    else if negb (Nat.eqb (ob_cleans ob) c) then VMismatch i "cleaner-runs"
+    else if negb (listing_eqb (ob_listing ob) (d_root s')) then VMismatch i "listing"
+    else dmism_from (S i) s' ops' obs'
+  | _, _ => VOk
+  end.
+
+Definition check_dcase (c : dcase) : verdict :=
+  vcombine (dviol_from 0 dminit (dc_ops c) (dc_obs c))
+           (dmism_from 0 dinit (dc_ops c) (dc_obs c)).
+
 Inductive case :=
-| CIdle (c : icase).
+| CIdle (c : icase)
+| CDirs (c : dcase).
 
 Definition check_case (c : case) : verdict :=
   match c with
   | CIdle c => check_icase c
+  | CDirs c => check_dcase c
   end.
